@@ -205,6 +205,11 @@ def check_sqlite(inp):
       return 'client ids changed'
     if dict(fd.client_sizes()) != {k: len(v['y']) for k, v in table.items()}:
       return 'sizes changed'
+    # the three iterators of ONE dataset object alive at once: read back side by side they still give every client
+    rows = list(zip(fd.client_ids(), fd.client_sizes(), fd.clients()))
+    if len(rows) != len(table) or any(not (a == b_[0] == c_[0] and b_[1] == len(table[a]['y'])) for a, b_, c_ in rows):
+      return (f'zip(client_ids(), client_sizes(), clients()) of a freshly written dataset reads back {len(rows)} consistent rows, '
+              f'wrote {len(table)} clients')
     for k, v in table.items():
       # every per-client read path, zero-example clients included
       try:
